@@ -116,4 +116,10 @@ and whatever the step, the loops end in a value (the pre-repair code panicked on
 theorem C07_ex_reverseBy_never_panics (es : List Msg) (step : Int) : Ex.reverseBy es step ≠ none := by
   rw [Ex.reverseBy_eq]; simp
 
+/-- **The source is the one the model was written from** (regenerated on every run): the connection loop (`serveConn`, `receive`, `dispatch`, `handleMessage`, `responseMessage`, `executeCommand`, `upperASCII`) of the current source
+have the fingerprints recorded in the model; a change to any of them means the theorems above are not shown for the code
+as it is now, until the model has been compared with it again -/
+theorem C07_source_conn_loop_is_the_modelled_one :
+    connLoopModelled.all (fun e => Generated.serverFingerprints.contains (e.1, e.2.1)) = true := source_conn_loop_is_the_modelled_one
+
 end GoRedis
